@@ -1515,11 +1515,7 @@ class Extracted:
     raw_stmt_count: int = 0
 
 
-def analyse(root: Path) -> Extracted:
-    pkg = Package(root)
-    roots = sorted(q for q, info in pkg.fns.items() if info.node.name == "rebuild" and info.is_method)
-    if not roots:
-        raise EffectsError("no `rebuild` method found")
+def make_translator(pkg: Package, roots: list[str]) -> Translator:
     tr = Translator(pkg, roots)
     # attributes annotated as sets at class level (ClassVar[set[str]] etc.)
     tr.set_attrs = set()
@@ -1529,6 +1525,25 @@ def analyse(root: Path) -> Extracted:
                 s = ast.unparse(st.annotation)
                 if "set[" in s.lower() or s in ("set", "frozenset"):
                     tr.set_attrs.add(st.target.id)
+    return tr
+
+
+def rebuild_roots(pkg: Package) -> list[str]:
+    return sorted(q for q, info in pkg.fns.items() if info.node.name == "rebuild" and info.is_method)
+
+
+def parse_roots(pkg: Package) -> list[str]:
+    return sorted(q for q, info in pkg.fns.items()
+                  if info.node.name in ("parse", "parse_file", "parse_to_ast") and info.parent is None
+                  and not info.is_method and info.rel == "parser.py")
+
+
+def analyse(root: Path) -> Extracted:
+    pkg = Package(root)
+    roots = rebuild_roots(pkg)
+    if not roots:
+        raise EffectsError("no `rebuild` method found")
+    tr = make_translator(pkg, roots)
     tr.run()
     stmts = list(tr.stmts)
     raw = len(stmts)
